@@ -1,5 +1,5 @@
 (* C17 — SETPOLL mode resolves every input message to its true mode. *)
-From PyUbx Require Import Base Bytes Frame Types Strs Walk Consts Tables Msg WfDef Table_props.
+From PyUbx Require Import Base Bytes Frame Types Strs Walk Consts Tables Msg WfDef Table_props C17_sound.
 Open Scope Z_scope.
 
 (* SETPOLL is exactly "parse in the mode getinputmode returns" *)
@@ -25,6 +25,22 @@ Print Assumptions C17_set_partial.
 Theorem C17_poll_partial : forallb (fun e => mem_s (fst e) known_c17_poll || mode_entry_ok 2%N e) payloads_poll = true.
 Proof. exact c17_poll_table. Qed.
 Print Assumptions C17_poll_partial.
+
+(* what those obligations mean: for every SET (POLL) definition outside the recorded ambiguities, EVERY frame of its
+   class/id whose length a payload of that definition can have - exactly the minimum for a fixed-size definition,
+   anything from the minimum on for one with repeating groups - is parsed under SETPOLL exactly as under SET (POLL) *)
+Theorem C17_set_resolves : forall e k v bf f,
+  In e payloads_set -> mem_s (fst e) known_c17_set = false -> key_of_def (fst e) = Some k ->
+  pyslice f 2 4 = k -> possible_len (snd e) (Z.of_nat (length f)) ->
+  parse 3 v bf f = parse 1 v bf f.
+Proof. exact c17_set_resolves. Qed.
+Print Assumptions C17_set_resolves.
+Theorem C17_poll_resolves : forall e k v bf f,
+  In e payloads_poll -> mem_s (fst e) known_c17_poll = false -> key_of_def (fst e) = Some k ->
+  pyslice f 2 4 = k -> possible_len (snd e) (Z.of_nat (length f)) ->
+  parse 3 v bf f = parse 2 v bf f.
+Proof. exact c17_poll_resolves. Qed.
+Print Assumptions C17_poll_resolves.
 
 (* the refutation witnesses: a SET message with an empty payload resolves to POLL; AID-ALM POLL with svid to SET *)
 Theorem C17_full_refuted :
